@@ -13,6 +13,7 @@ import Driver.C06
 import Driver.C13
 import Driver.C11
 import Driver.C04
+import Driver.C19
 open Driver
 
 def handle (line : String) : String :=
@@ -36,6 +37,9 @@ def handle (line : String) : String :=
   | "c11" :: args => c11 args
   | "c11s" :: args => c11s args
   | "c04" :: args => c04 args
+  | "c19" :: args => c19 args
+  | "c19e" :: args => c19e args
+  | "c19x" :: _ => "spec=-"
   | _ => "bad-op"
 
 partial def loop (h : IO.FS.Stream) (out : IO.FS.Stream) : IO Unit := do
